@@ -58,6 +58,9 @@ fn main() {
         let dump: Option<usize> = opt("--dump").and_then(|s| s.parse().ok());
         std::process::exit(checks::c03::worker(tier, from, to, dump));
     }
+    if cmd == "c06-stateful" {
+        std::process::exit(checks::c06::stateful_main());
+    }
     if cmd == "c06-worker" {
         let from: usize = opt("--from").and_then(|s| s.parse().ok()).unwrap_or(0);
         let to: usize = opt("--to").and_then(|s| s.parse().ok()).unwrap_or(usize::MAX);
